@@ -30,7 +30,12 @@ type Prog struct {
 	// stats
 	NumFuncs int
 
-	allFuncs map[*ssa.Function]bool
+	allFuncs    map[*ssa.Function]bool
+	inlinedAway map[*ssa.Function]bool // unknown helpers fully expanded into their callers
+	ifaceNames  map[string]bool
+	known       map[string]bool
+	delegators  map[*ssa.Function][]*ssa.Function
+	Inlined     *InlineStats
 }
 
 // Load loads ./... of dir. overlay maps absolute file names to replacement
@@ -85,8 +90,28 @@ func Load(dir string, overlay map[string][]byte, goarch string) (*Prog, error) {
 			p.NumFuncs++
 		}
 	}
+	if BaselineFile != "" {
+		data, err := os.ReadFile(BaselineFile)
+		if err != nil {
+			return nil, fmt.Errorf("baseline function list: %v", err)
+		}
+		known := LoadKnownFuncs(data)
+		if len(known) < 500 {
+			return nil, fmt.Errorf("baseline function list %s has only %d entries", BaselineFile, len(known))
+		}
+		st, err := p.InlineUnknown(known)
+		p.Inlined = st
+		if err != nil && os.Getenv("THUNDERLINT_DEBUG_INLINE") == "" {
+			return nil, err
+		}
+	}
 	return p, nil
 }
+
+// BaselineFile names the list of functions the rule tables were written
+// against; calls to module functions not on it are expanded in place (see
+// inline.go). Empty: no inlining.
+var BaselineFile string
 
 // Pkg returns the SSA package "graphql", "reactive", ... (path relative to the module).
 func (p *Prog) Pkg(rel string) *ssa.Package {
@@ -179,6 +204,9 @@ func (p *Prog) ModuleFuncs(keep func(rel string) bool) []*ssa.Function {
 		}
 		if f.Blocks == nil || f.Synthetic != "" {
 			continue // promoted-method wrappers, bound-method thunks: they only delegate
+		}
+		if p.inlinedAway[f] {
+			continue // its body is analysed inside every caller
 		}
 		rel := strings.TrimPrefix(strings.TrimPrefix(pk.Path(), ModulePath), "/")
 		if keep != nil && !keep(rel) {
